@@ -49,6 +49,7 @@ func runC13(c *core.Ctx) {
 
 func runC14(c *core.Ctx) {
 	ruleSimpleEncode(c)
+	ruleCIDEncodeFresh(c)
 	ruleRunCompression(c, "C14-R7")
 	ruleSimpleWidthsWindow(c)
 	ruleDifferencesArray(c)
@@ -1145,5 +1146,121 @@ func ruleWidthsTrimming(c *core.Ctx) {
 			})
 		}
 		o.Require(n >= 1, "no conversions to charcode.Code found")
+	})
+}
+
+// ruleCIDEncodeFresh (C14-R10): the UTF-8 CID encoder assigns a code to a new
+// (CID, text) pair and records it in e.info.  The code must not be in use:
+// otherwise two pairs share a code and the earlier one reads back as the
+// later one.  In the normalised Encode every value that can reach the store
+// into info, from the expression that computed it on, passes the negative
+// edge of a lookup of that very code in info.  (Encode also stores the text
+// it was given, not a transformed one.)
+func ruleCIDEncodeFresh(c *core.Ctx) {
+	const pk = "pdf/font/encoding/cidenc"
+	c.Check("C14-R10", pk+".(*compositeUTF8).Encode", "a new (CID, text) pair gets a code that is not in use, and the text recorded for the code is the text given", func(o *core.Ob) {
+		fn := c.Prog.Func(pk, "(*compositeUTF8).Encode")
+		g := fn.Graph()
+		info := fn.Info()
+		isInfo := func(e ast.Expr) bool {
+			_, name, ok := selName(e)
+			return ok && name == "info"
+		}
+		// the store
+		var store *core.V
+		var codeExpr ast.Expr
+		var value ast.Expr
+		for _, v := range g.Vs {
+			as, ok := v.AST.(*ast.AssignStmt)
+			if !ok || len(as.Lhs) != 1 || len(as.Rhs) != 1 {
+				continue
+			}
+			if ix, ok := ast.Unparen(as.Lhs[0]).(*ast.IndexExpr); ok && isInfo(ix.X) {
+				store, codeExpr, value = v, ix.Index, as.Rhs[0]
+				o.At(fn.Site(as, "code recorded"))
+			}
+		}
+		if !o.Shape(store != nil, "the store into the table of codes was not found") {
+			return
+		}
+		// lookups: _, used := e.info[c]
+		type lookup struct {
+			used, code types.Object
+		}
+		var lookups []lookup
+		for _, v := range g.Vs {
+			as, ok := v.AST.(*ast.AssignStmt)
+			if !ok || len(as.Lhs) != 2 || len(as.Rhs) != 1 {
+				continue
+			}
+			if ix, ok := ast.Unparen(as.Rhs[0]).(*ast.IndexExpr); ok && isInfo(ix.X) {
+				lookups = append(lookups, lookup{core.ObjOf(info, as.Lhs[1]), core.ObjOf(info, ix.Index)})
+			}
+		}
+		// every origin of the stored code
+		origins := valueCases(g, store, codeExpr, 8)
+		for _, vc := range origins {
+			if vc.V == nil || vc.V == store {
+				o.Unrec("the code stored in info is not a local value with visible definitions")
+				continue
+			}
+			// the value of a failing call (return 0, ErrOverflow) does not reach the store
+			if as, ok := vc.V.AST.(*ast.AssignStmt); ok && len(as.Rhs) >= 2 {
+				failing := false
+				for _, r := range as.Rhs {
+					if t := info.TypeOf(r); t != nil && core.TypeString(t) == "error" && !core.IsNil(info, r) {
+						failing = true
+					}
+				}
+				if failing {
+					continue
+				}
+			}
+			o.Count(1)
+			// the variable this origin defines
+			var defObj types.Object
+			if as, ok := vc.V.AST.(*ast.AssignStmt); ok {
+				for i, r := range as.Rhs {
+					if r == vc.Expr && i < len(as.Lhs) {
+						defObj = core.ObjOf(info, as.Lhs[i])
+					}
+				}
+			}
+			// paths on which this origin's value is the one that is stored: they do
+			// not pass another origin (or this one again)
+			var avoid []*core.V
+			for _, other := range origins {
+				if other.V != nil {
+					avoid = append(avoid, other.V)
+				}
+			}
+			atoms := atomsBetween(g, vc.V, store, avoid)
+			fresh := false
+			for _, a := range atoms {
+				id, isID := ast.Unparen(a.Expr).(*ast.Ident)
+				if !isID || !a.Neg || a.Tag != nil {
+					continue
+				}
+				for _, lk := range lookups {
+					if info.ObjectOf(id) == lk.used && (defObj == nil || lk.code == defObj) {
+						fresh = true
+					}
+				}
+			}
+			if !fresh {
+				o.FailAt(fn.Site(vc.V.AST, ""), "the code %s reaches the table without a lookup that found it unused: a pair that already has this code is overwritten", core.ExprStr(vc.Expr))
+			}
+		}
+		// the recorded text is the parameter, which is not reassigned
+		text := paramObj(fn, "text")
+		if f := compositeFields(info, value); f != nil && text != nil {
+			if tx := f["Text"]; tx != nil {
+				o.Count(1)
+				o.Require(core.ObjOf(info, tx) == text, "the text recorded for the code is %s, not the text given to Encode", core.ExprStr(tx))
+				for _, d := range defVertices(g, text) {
+					o.FailAt(fn.Site(d.AST, ""), "the text given to Encode is replaced before it is recorded (%s): writer and reader then report a text that differs from the one shown", c.Prog.Src(d.AST))
+				}
+			}
+		}
 	})
 }
